@@ -226,7 +226,7 @@ func C14(c *run.Ctx) {
 	}
 	for ki, key := range keys {
 		for _, jwtAT := range []bool{false, true} {
-			w := world.New(world.Opts{IDKey: key.Key, JWTAccess: jwtAT, Mode: world.Mode{DB: ki%2 == 1}, Cfg: func(cfg *fosite.Config) { cfg.IDTokenLifespan = 30 * time.Minute }})
+			w := world.New(world.Opts{IDKey: key.Key, JWTAccess: jwtAT, Mode: world.Mode{DB: ki%2 == 1, Hydrate: jwtAT}, Cfg: func(cfg *fosite.Config) { cfg.IDTokenLifespan = 30 * time.Minute }})
 			w.IDAlg = key.Alg
 			life := 30 * time.Minute
 			// id token hints
